@@ -2210,15 +2210,16 @@ def _routing_model(prog, f, g):
     return once, bulk, table, keys, loops, is_bulk
 
 
-def r07_12(prog, rep, rid='R07.12'):
-    rep.rule(rid, 'advance_tasks, evaluated for one task of the bulk over '
-             'every origin and state: the task is put into each addressee\'s '
-             'bucket at most once, each bucket is handed on at most once, and '
-             'the bucket of the task\'s own origin is handed on', minimum=3)
-    base = prog.cls(*EBASE)
-    f = prog.find_method(base, 'advance_tasks')
-    rep.saw(f)
-    g = cfg_of(f)
+def _is_state(e):
+    return isinstance(e, ast.Name) and e.id == 'state'
+
+
+def _routing_eval(prog, rep, f, g):
+    """abstract evaluation of advance_tasks for ONE task of the bulk:
+    (keys, idx, ofield, sconsts, run_one); run_one(origin, sval, strict) ->
+    [(cnt per bucket, hands per bucket + whole bulk, true free tests)] for
+    every consistent path to the exit.  strict: a test on the state parameter
+    that cannot be decided is an AnalysisError instead of a free choice."""
     once, bulk, table, keys, loops, is_bulk = _routing_model(prog, f, g)
     idx = {k: i for i, k in enumerate(keys)}
     ALL = len(keys)                      # hand-on of the whole bulk
@@ -2267,14 +2268,17 @@ def r07_12(prog, rep, rid='R07.12'):
     for n in g.nodes:
         t = _deref(n.ast, once) if n.kind == 'test' else None
         if isinstance(t, ast.Compare) and len(t.ops) == 1:
-            l = _deref(t.left, once)
-            if isinstance(l, ast.Name) and l.id == 'state':
-                v = prog.fold(f.module, t.comparators[0], f.cls)
+            l, r = _deref(t.left, once), t.comparators[0]
+            if isinstance(t.ops[0], (ast.Eq, ast.NotEq)) and \
+                    _is_state(_deref(r, once)) and not _is_state(l):
+                l, r = _deref(r, once), t.left
+            if _is_state(l):
+                v = prog.fold(f.module, r, f.cls)
                 for x in (v if isinstance(v, (list, tuple)) else [v]):
                     if isinstance(x, str) and x not in sconsts:
                         sconsts.append(x)
 
-    def run_one(origin, sval):
+    def run_one(origin, sval, strict=False):
         o = idx[origin]
 
         def K(k):
@@ -2295,12 +2299,15 @@ def r07_12(prog, rep, rid='R07.12'):
                                 'UNRECOGNISED-IDIOM %s: membership of `%s` in '
                                 'a bucket' % (f.where, short(l, 30)))
                         return ('in', K(b), isinstance(op, ast.In))
+                if isinstance(op, (ast.Eq, ast.NotEq)) and \
+                        _is_state(_deref(r, once)) and not _is_state(l):
+                    l, r = _deref(r, once), e.left     # `CONST != state`
                 if isinstance(op, (ast.Eq, ast.NotEq, ast.In, ast.NotIn)):
                     val = None
                     fld = is_field(l, node)
                     if fld is not None and ofield and fld == ofield[0]:
                         val = origin
-                    elif isinstance(l, ast.Name) and l.id == 'state':
+                    elif _is_state(l):
                         val = sval
                     if val is not None:
                         c = prog.fold(f.module, r, f.cls)
@@ -2315,6 +2322,12 @@ def r07_12(prog, rep, rid='R07.12'):
                 isinstance(e, ast.Name) else None
             if b is not None:
                 return ('truth', K(b))
+            if strict and any(isinstance(x, ast.Name) and x.id == 'state'
+                              for x in walk(e)):
+                raise AnalysisError(
+                    'UNRECOGNISED-IDIOM %s: the test `%s` on the state is not '
+                    'a comparison with state constants' % (f.where,
+                                                           short(e, 40)))
             txt = unparse(_Rename(set(loops.values())).visit(
                 copy.deepcopy(e)))
             return ('memo', txt)
@@ -2407,13 +2420,7 @@ def r07_12(prog, rep, rid='R07.12'):
                 continue
             cnt, hands, seen, memo = t.state
             lits = [x for x, val in sorted(memo) if val]
-            for k, i in idx.items():
-                if cnt[i] > 1:
-                    out.append(('twice-in-bucket', k, lits))
-                elif hands[i] > 1:
-                    out.append(('bucket-handed-on-twice', k, lits))
-            if hands[o] + hands[ALL] == 0:
-                out.append(('own-bucket-not-handed-on', origin, lits))
+            out.append((cnt, hands, lits))
         return out
 
     # a first pass fixes the field that selects the bucket (ofield)
@@ -2425,11 +2432,33 @@ def r07_12(prog, rep, rid='R07.12'):
             if isinstance(x, ast.Subscript) and isinstance(x.value, ast.Name) \
                     and x.value.id == table:
                 bkey(x, n)
+    return keys, idx, ofield, sconsts, run_one
+
+
+def r07_12(prog, rep, rid='R07.12'):
+    rep.rule(rid, 'advance_tasks, evaluated for one task of the bulk over '
+             'every origin and state: the task is put into each addressee\'s '
+             'bucket at most once, each bucket is handed on at most once, and '
+             'the bucket of the task\'s own origin is handed on', minimum=3)
+    base = prog.cls(*EBASE)
+    f = prog.find_method(base, 'advance_tasks')
+    rep.saw(f)
+    g = cfg_of(f)
+    keys, idx, ofield, sconsts, run_one = _routing_eval(prog, rep, f, g)
+    ALL = len(keys)
     for origin in keys:
         found = []
+        o = idx[origin]
         for sval in sconsts + ['<any other state>']:
-            for kind, k, lits in run_one(origin, sval):
-                found.append((kind, k, lits, sval))
+            for cnt, hands, lits in run_one(origin, sval):
+                for k, i in idx.items():
+                    if cnt[i] > 1:
+                        found.append(('twice-in-bucket', k, lits, sval))
+                    elif hands[i] > 1:
+                        found.append(('bucket-handed-on-twice', k, lits, sval))
+                if hands[o] + hands[ALL] == 0:
+                    found.append(('own-bucket-not-handed-on', origin, lits,
+                                  sval))
         if not found:
             rep.ok(rid, f, 'advance_tasks: a task of origin %r is in each '
                    'bucket at most once, each bucket is advanced at most once, '
@@ -2459,6 +2488,83 @@ def r07_12(prog, rep, rid='R07.12'):
                     'announces FAILED twice for it - the raptor master\'s '
                     'result callback fires twice' if kind !=
                     'own-bucket-not-handed-on' else 'announces nothing'))
+
+
+# ------------------------------------------------------------------------------
+# R07.14  the start announcement reaches one addressee only
+#
+# work() announces the start of the bulk with ONE call of advance_tasks(tasks,
+# AGENT_EXECUTING).  For the states that finish a task advance_tasks copies a
+# task that is bound to a raptor master into the raptor bucket as well (the
+# master wants the result); for the start announcement that copy is a second
+# advance(AGENT_EXECUTING) of the same task: the start is announced twice.
+# Necessary: evaluated for the state work() announces the start with, every
+# consistent path of advance_tasks hands the task on through exactly one
+# bucket, whatever its origin and whatever the free tests on the task say.
+#
+def _start_announcers(prog, st):
+    """the calls of the executors' work() that announce the start state
+    through advance_tasks"""
+    out = []
+    for anchor in (POPEN, NOOP):
+        K = prog.cls(*anchor)
+        f = prog.find_method(K, 'work')
+        once = _once_bound(f.node, f.params)
+        for c in calls_in(f.node):
+            if call_name(c) != 'self.advance_tasks':
+                continue
+            se = _bound(prog, f, c, 'state', K)
+            if se is None:
+                continue
+            if prog.fold(f.module, _deref(se, once), f.cls) == st:
+                out.append((K, f, c))
+    return out
+
+
+def r07_14(prog, rep, rid='R07.14'):
+    rep.rule(rid, 'advance_tasks, evaluated for the state work() announces the '
+             'start with: a task of any origin is handed on through exactly '
+             'one bucket (no copy for a second addressee)', minimum=3)
+    st = prog.const('states.py', 'AGENT_EXECUTING')
+    base = prog.cls(*EBASE)
+    f = prog.find_method(base, 'advance_tasks')
+    rep.saw(f)
+    g = cfg_of(f)
+    users = _start_announcers(prog, st)
+    keys, idx, ofield, sconsts, run_one = _routing_eval(prog, rep, f, g)
+    if not users:
+        for origin in keys:
+            rep.ok(rid, f, 'advance_tasks is not used for the start '
+                   'announcement (origin %r)' % origin, f.loc())
+        return
+    who = ' / '.join('%s.work' % K.name for K, _, _ in users)
+    for origin in keys:
+        worst = None
+        for cnt, hands, lits in run_one(origin, st, strict=True):
+            n = sum(hands)
+            if n > 1 and (worst is None or len(lits) < len(worst[1])):
+                worst = (n, lits, [k for k, i in idx.items() if hands[i]])
+        if worst is None:
+            rep.ok(rid, f, 'advance_tasks(.., %s): a task of origin %r is '
+                   'handed on through one bucket only' % (st, origin), f.loc())
+            continue
+        n, lits, through = worst
+        cond = ''.join(' and `%s`' % x.replace('_T_', 'task') for x in lits)
+        rep.bad(rid, f, 'advance_tasks:start-announced-twice',
+                'AgentExecutingComponent.advance_tasks, called with state %s '
+                '(the start announcement of %s), hands a task with %s == %r%s '
+                'on %d times, through the buckets %s: advance(%s) runs twice '
+                'for the same task - execution start is announced twice. Only '
+                'the states that finish a task may copy it into a second '
+                'addressee\'s bucket' % (
+                    st, who, ofield[0] if ofield else 'origin', origin, cond,
+                    n, through, st), f.loc(),
+                history='a task with %s=%r%s is accepted by the Popen or NOOP '
+                'executor: work() calls advance_tasks(tasks, %s) once, which '
+                'calls advance() for %s: two %s notifications for the task'
+                % (ofield[0] if ofield else 'origin', origin,
+                   ''.join(', ' + x.replace('_T_', 'task') for x in lits), st,
+                   ' and '.join('the %s bucket' % k for k in through), st))
 
 
 # ------------------------------------------------------------------------------
@@ -2616,8 +2722,9 @@ def run(prog, rep, tier):
         'advance_tasks forwards state and push; every round of the watcher '
         'loop polls the running tasks; advance_tasks, evaluated per origin '
         'and state, puts a task into each bucket at most once and advances '
-        'each bucket at most once; an OSError of the launcher\'s kill cannot '
-        'leave cancel_task after the removal from the registry.')
+        'each bucket at most once, and for the start announcement hands it '
+        'on through one bucket only; an OSError of the launcher\'s kill '
+        'cannot leave cancel_task after the removal from the registry.')
     rep.undecided = ('real thread schedules (the argument is lock discipline '
         'plus single removal); Flux and Dragon executors are out of scope.')
     rep.assumptions = [
@@ -2643,6 +2750,7 @@ def run(prog, rep, tier):
     rep.attempt(r07_11, prog, rep)
     rep.attempt(r07_12, prog, rep)
     rep.attempt(r07_13, prog, rep)
+    rep.attempt(r07_14, prog, rep)
 
 
 # ------------------------------------------------------------------------------
@@ -2683,6 +2791,9 @@ _WHEAD = "        try:\n            while not self._term.is_set():\n"
 _FIRST = "        for task in ru.as_list(tasks):\n            buckets[task['origin']].append(task)\n"
 _DEDUP = "                if task['description'].get('raptor_id'):\n                    if task not in buckets['raptor']:\n                        buckets['raptor'].append(task)\n"
 _SECOND = "        if state != rps.AGENT_EXECUTING:\n            for task in ru.as_list(tasks):\n" + _DEDUP
+_RSU = "            self.publish(rpc.STATE_PUBSUB, {'cmd': 'raptor_state_update',\n                                            'arg': buckets['raptor']})\n"
+_GUARD = "        if state != rps.AGENT_EXECUTING:\n"
+_LOOP2 = "        for task in ru.as_list(tasks):\n            if task['description'].get('raptor_id'):\n                if task not in buckets['raptor']:\n                    buckets['raptor'].append(task)\n"
 _LMOUT = "        except OSError:\n            # lost race: task is already gone, we ignore this\n            self._log.debug('task already gone: %s', task['uid'])\n"
 _GONE = "            self._log.debug('task already gone: %s', task['uid'])\n"
 
@@ -2850,6 +2961,21 @@ MUTATIONS = [
         (_L, _LMOUT, _LMOUT.replace('except OSError:', 'except (ProcessLookupError, ChildProcessError):'))]),
     dict(name='R07.13 launcher: everything but ESRCH is raised again', rules=('R07.13',), edits=[
         (_L, _LMOUT, "        except OSError as e:\n            if e.errno != 3:\n                raise\n" + _GONE)]),
+    dict(name='R07.14 start guard of the raptor copy dropped, loop dedented (C07-i3)', rules=('R07.14',), edits=[
+        (_E, _SECOND, _LOOP2)]),
+    dict(name='R07.14 start guard with flipped polarity', rules=('R07.14',), edits=[
+        (_E, _GUARD, "        if state == rps.AGENT_EXECUTING:\n")]),
+    dict(name='R07.14 start guard compares with the wrong state constant', rules=('R07.14',), edits=[
+        (_E, _GUARD, "        if state != rps.AGENT_EXECUTING_PENDING:\n")]),
+    dict(name='R07.14 start guard weakened by `or publish`', rules=('R07.14',), edits=[
+        (_E, _GUARD, "        if state != rps.AGENT_EXECUTING or publish:\n")]),
+    dict(name='R07.14 start guard covers the dedupe test only', rules=('R07.14',), edits=[
+        (_E, _SECOND, "        for task in ru.as_list(tasks):\n            if task['description'].get('raptor_id'):\n                if state != rps.AGENT_EXECUTING and task in buckets['raptor']:\n                    continue\n                if task['origin'] != 'raptor':\n                    buckets['raptor'].append(task)\n")]),
+    dict(name='R07.14 raptor copy made in the sorting loop, which has no start guard', rules=('R07.14',), edits=[
+        (_E, _FIRST + "\n        # we want any task which has a `raptor_id` set to show up in raptor's\n        # result callbacks\n" + _SECOND, _FIRST + "            if task['origin'] != 'raptor' and \\\n                    task['description'].get('raptor_id'):\n                buckets['raptor'].append(task)\n")]),
+    dict(name='R07.14 start guard moved to the raptor_state_update message only', rules=('R07.14',), edits=[
+        (_E, _SECOND, _LOOP2),
+        (_E, _RSU, "            if state != rps.AGENT_EXECUTING:\n" + _RSU.replace('\n    ', '\n        ').replace('            self.publish', '                self.publish', 1))]),
 ]
 
 SILENT = [
@@ -2980,4 +3106,16 @@ SILENT = [
     dict(name='launcher lets EPERM through, Popen.cancel_task catches OSError around the kill', edits=[
         (_L, _LMOUT, _LMOUT.replace('except OSError:', 'except ProcessLookupError:')),
         (_P, _KILL, "        launcher = self._rm.get_launcher(task['launcher_name'])\n        try:\n            launcher.cancel_task(task, proc.pid)\n        except OSError as e:\n            self._log.warn('kill of %s failed: %s', tid, e)\n")]),
+    dict(name='advance_tasks: start guard hoisted into a local', edits=[
+        (_E, _GUARD, "        finishing = state != rps.AGENT_EXECUTING\n        if finishing:\n")]),
+    dict(name='advance_tasks: start guard with the constant on the left', edits=[
+        (_E, _GUARD, "        if rps.AGENT_EXECUTING != state:\n")]),
+    dict(name='advance_tasks: start guard as membership in a tuple', edits=[
+        (_E, _GUARD, "        if state not in (rps.AGENT_EXECUTING,):\n")]),
+    dict(name='advance_tasks: start guard merged into the per-task condition', edits=[
+        (_E, _SECOND, "        for task in ru.as_list(tasks):\n            if state != rps.AGENT_EXECUTING and \\\n                    task['description'].get('raptor_id'):\n                if task not in buckets['raptor']:\n                    buckets['raptor'].append(task)\n")]),
+    dict(name='advance_tasks: start guard in positive form with else', edits=[
+        (_E, _SECOND, "        if state == rps.AGENT_EXECUTING:\n            pass\n        else:\n" + _LOOP2.replace('\n    ', '\n        ').replace('        for', '            for', 1))]),
+    dict(name='advance_tasks: start guard per task as early continue', edits=[
+        (_E, _SECOND, "        started = state == rps.AGENT_EXECUTING\n        for t in ru.as_list(tasks):\n            if started:\n                continue\n            if not t['description'].get('raptor_id'):\n                continue\n            if t not in buckets['raptor']:\n                buckets['raptor'].append(t)\n")]),
 ]
